@@ -364,6 +364,97 @@ fn run_keys(c: &KeyCase) -> CaseResult {
     Ok(v)
 }
 
+// ------------------------------------------------------------------------------------------
+// one frame, one moment
+
+#[derive(Debug, Clone, Serialize, Deserialize)]
+pub struct MomentCase {
+    start: u64,
+    /// how many inc(1) calls from another thread land while the frame is being formatted
+    bumps: u8,
+    /// what triggers the draw: 0 set_message, 1 force_draw
+    draw: u8,
+}
+
+/// "the value of the bar at the moment of the draw": a frame is formatted from one snapshot. Another
+/// thread advances the position (lock-free) while a custom key in the middle of the template is being
+/// written; for a bar without a length every length key of that frame still equals the position key of
+/// that frame.
+fn run_moment(c: &MomentCase) -> CaseResult {
+    use std::sync::atomic::{AtomicU64, Ordering};
+    let vt = VTerm::new(4, 400).with_snapshots();
+    let slot: Arc<Mutex<Option<indicatif::WeakProgressBar>>> = Arc::new(Mutex::new(None));
+    let s2 = slot.clone();
+    let bumps = c.bumps.max(1) as u64;
+    let spawned: Arc<Mutex<Vec<std::thread::JoinHandle<()>>>> = Arc::new(Mutex::new(vec![]));
+    let sp2 = spawned.clone();
+    let landed = Arc::new(AtomicU64::new(0));
+    let l2 = landed.clone();
+    let armed = Arc::new(std::sync::atomic::AtomicBool::new(false));
+    let a2 = armed.clone();
+    let style = ProgressStyle::with_template("{pos}|{human_pos}|{bytes}|{bump}|{len}|{human_len}|{total_bytes}|{decimal_total_bytes}|{binary_total_bytes}")
+        .unwrap()
+        .with_key("bump", move |_: &ProgressState, _w: &mut dyn std::fmt::Write| {
+            if !a2.swap(false, Ordering::SeqCst) {
+                return;
+            }
+            let Some(worker) = s2.lock().unwrap().as_ref().and_then(|w| w.upgrade()) else { return };
+            // (a steady ticker is installed: inc() only advances the lock-free position and returns)
+            let (tx, rx) = std::sync::mpsc::channel();
+            sp2.lock().unwrap().push(std::thread::spawn(move || {
+                for _ in 0..bumps {
+                    worker.inc(1);
+                }
+                drop(worker);
+                let _ = tx.send(());
+            }));
+            if rx.recv_timeout(Duration::from_secs(5)).is_ok() {
+                l2.store(bumps, Ordering::SeqCst);
+            }
+        });
+    let pb = ProgressBar::with_draw_target(None, ProgressDrawTarget::term_like(vt.boxed())).with_position(c.start);
+    pb.set_style(style);
+    *slot.lock().unwrap() = Some(pb.downgrade());
+    pb.tick();
+    // the ticker (one frame when it starts, the next an hour later) keeps inc() from drawing
+    pb.enable_steady_tick(Duration::from_secs(3600));
+    armed.store(true, Ordering::SeqCst);
+    catch(|| match c.draw % 2 {
+        0 => pb.set_message("m"),
+        _ => pb.force_draw(),
+    })
+    .map_err(|p| Fail::new("panic", format!("the draw panicked: {p}")))?;
+    for h in spawned.lock().unwrap().drain(..) {
+        let _ = h.join();
+    }
+    pb.disable_steady_tick();
+    // every frame: the first tick, the ticker's, the one that was interrupted
+    let frames: Vec<String> = vt.take_frames().iter().filter_map(|f| f.rows.first().cloned()).collect();
+    let mut v = Verdict::default();
+    let mut checked = 0;
+    for (k, line) in frames.iter().enumerate() {
+        let f: Vec<&str> = line.split('|').collect();
+        ensure!(f.len() == 9, "harness", "frame {k} {line:?} does not have 9 fields");
+        let Ok(pos) = f[0].parse::<u64>() else { return Err(Fail::new("harness", format!("frame {k} {line:?}: position field"))) };
+        ensure!(
+            f[1] == HumanCount(pos).to_string() && f[2] == HumanBytes(pos).to_string(),
+            "moment",
+            "frame {k} {line:?}: {{human_pos}} / {{bytes}} do not show the position {pos} that {{pos}} shows in the same frame"
+        );
+        ensure!(
+            f[4] == pos.to_string() && f[5] == HumanCount(pos).to_string() && f[6] == HumanBytes(pos).to_string() && f[7] == DecimalBytes(pos).to_string() && f[8] == BinaryBytes(pos).to_string(),
+            "moment",
+            "frame {k} {line:?}: the bar has no length, so the length keys render the position - but not the position {pos} that {{pos}} shows in the same frame ({} inc(1) call(s) from another thread landed while the frame was being formatted)",
+            landed.load(Ordering::SeqCst)
+        );
+        checked += 1;
+    }
+    ensure!(checked >= 2, "harness", "fewer than two frames were painted: {frames:?}");
+    v.nontrivial = landed.load(Ordering::SeqCst) > 0;
+    v.label_if(v.nontrivial, "position_advanced_while_the_frame_was_formatted");
+    Ok(v)
+}
+
 pub fn property() -> Property {
     let w = default_workers();
     Property {
@@ -384,6 +475,17 @@ pub fn property() -> Property {
             signature: no_signature,
             essential: &["state_changed_before_draw", "unknown_length", "len_lt_pos", "finished", "eta_nonzero", "rate_nonzero", "elapsed_hours", "reset", "custom_key_shadows_a_built_in_key"],
             workers: w,
+            decode: None,
+        }),
+        Box::new(Gen::<MomentCase> {
+            name: "one_moment",
+            rule: "a bar without a length whose template holds the position keys, a custom key, and the five length keys; while a frame (set_message / force_draw; a steady ticker with an interval of an hour is installed, so that inc() does not draw by itself) is being formatted the custom key lets another thread call inc(1) 1-3 times (lock-free) and waits until the new position is visible: within every painted frame all position keys agree with {pos} and all length keys (which render the position) equal that same position; non-trivial = the position did advance while the frame was formatted (real threads)",
+            strategy: |_| (prop_oneof![0u64..1000, any::<u64>().prop_map(|x| x >> 1)], 1u8..4, 0u8..3).prop_map(|(start, bumps, draw)| MomentCase { start, bumps, draw }).boxed(),
+            cases: |t| t.pick(20, 2_000),
+            run: run_moment,
+            signature: no_signature,
+            essential: &["position_advanced_while_the_frame_was_formatted"],
+            workers: 4,
             decode: None,
         })],
     }
